@@ -169,10 +169,13 @@ func RandLoopSpec(r *rand.Rand, maxN int) LoopSpec {
 				lvl = 30
 			}
 			if vs, ok := SnapToLevel(sp.Vs, lvl); ok {
-				sp.Vs = vs
-				sp.Kind += "+snapped"
-				sp.RMin *= 0.9
-				sp.RMax = math.Min(sp.RMax*1.05+1e-9, math.Pi/2-1e-3)
+				// snapping moves a vertex by up to a cell diagonal, which can exceed the azimuthal separation of
+				// two consecutive vertices of a many-vertex loop: keep the snapped loop only if it is still
+				// star-shaped (hence simple) around the centre
+				if ok2, rmin, rmax := StarOK(center, vs); ok2 {
+					sp.Vs, sp.RMin, sp.RMax = vs, rmin, rmax
+					sp.Kind += "+snapped"
+				}
 			}
 		}
 	}
